@@ -6,7 +6,10 @@ import (
 	"fmt"
 	"strings"
 
+	"time"
+
 	"github.com/semihalev/sdns/internal/verif/vlib"
+	"github.com/semihalev/sdns/middleware"
 	"github.com/semihalev/sdns/middleware/cache"
 )
 
@@ -263,6 +266,10 @@ func genECS(r *vlib.R, spec polSpec, base []byte, scopeNoise bool) string {
 	if scopeNoise && r.Chance(1, 8) {
 		scope = r.Intn(40)
 	}
+	if r.Chance(1, 14) {
+		// "no subnet": family 0 with netmask 0 (dig +subnet=0), as the decoder renders it
+		return fmt.Sprintf("E0.0.%d.%s", scope, vlib.Pick(r, []string{"00000000000000000000ffff00000000", "00000000", "nil"}))
+	}
 	return fmt.Sprintf("E%d.%d.%d.%s", famCode, mask, scope, addr)
 }
 
@@ -334,6 +341,9 @@ func genOptsWire(r *vlib.R, spec polSpec, base []byte) string {
 			a = mapped16(a)
 		}
 		e := fmt.Sprintf("E%d.%d.0.%s", code, m, vlib.Hex(a))
+		if r.Chance(1, 6) {
+			e = "E0.0.0.00000000000000000000ffff00000000" // family 0 / netmask 0 survives the round trip in this form
+		}
 		at := r.Intn(len(parts) + 1)
 		parts = append(parts[:at], append([]string{e}, parts[at:]...)...)
 	}
@@ -341,6 +351,47 @@ func genOptsWire(r *vlib.R, spec polSpec, base []byte) string {
 		return "-"
 	}
 	return strings.Join(parts, ",")
+}
+
+// genWireFacts: a raw packet for the strict parser — subnet options in every
+// shape a client can put on the wire (family 0/1/2/other, netmask and scope
+// inside and beyond the family, 0..16 address bytes, host bits set), next to
+// the options the parser knows and some it does not.  Whether the parser admits
+// the packet is observed here and written into the op line.
+func genWireFacts(r *vlib.R, spec polSpec) string {
+	var parts []string
+	for i := 0; i < r.Intn(3); i++ {
+		parts = append(parts, vlib.Pick(r, []string{"O3.x", "O11.x", "O12.7", "O10." + vlib.Hex(r.Bytes(8)), "O10." + vlib.Hex(r.Bytes(24)), "O65001.aa", "O15.0001"}))
+	}
+	necs := vlib.Pick(r, []int{0, 1, 1, 1, 1, 2})
+	for i := 0; i < necs; i++ {
+		fam := vlib.Pick(r, []int{0, 0, 1, 1, 1, 2, 2, 3})
+		var mask, scope, alen int
+		switch fam {
+		case 0:
+			mask, scope, alen = vlib.Pick(r, []int{0, 0, 0, 1}), vlib.Pick(r, []int{0, 0, 24}), vlib.Pick(r, []int{0, 0, 4})
+		case 1:
+			mask, scope, alen = vlib.Pick(r, []int{0, 8, 19, 24, 32, 33}), vlib.Pick(r, []int{0, 0, 24, 33}), vlib.Pick(r, []int{0, 1, 3, 4})
+		case 2:
+			mask, scope, alen = vlib.Pick(r, []int{0, 48, 56, 61, 128, 129}), vlib.Pick(r, []int{0, 0, 56, 129}), vlib.Pick(r, []int{0, 7, 8, 16})
+		default:
+			mask, scope, alen = 24, 0, 4
+		}
+		a := "-"
+		if alen > 0 {
+			a = vlib.Hex(r.Bytes(alen))
+		}
+		e := fmt.Sprintf("E%d.%d.%d.%s", fam, mask, scope, a)
+		at := r.Intn(len(parts) + 1)
+		parts = append(parts[:at], append([]string{e}, parts[at:]...)...)
+	}
+	o := "-"
+	if len(parts) > 0 {
+		o = strings.Join(parts, ",")
+	}
+	opts, _ := parseOpts(o)
+	adm := new(middleware.Request).ParseWire(rawQuery(opts), time.Now(), nil)
+	return fmt.Sprintf("ecs wire %s %s", vlib.B(adm), o)
 }
 
 func lastECS(opts string) (optT, bool) {
@@ -471,9 +522,9 @@ func genEcsCase(r *vlib.R, emit func(string)) int {
 		case k < 14:
 			o := genOpts(r, spec, 60, nil, false)
 			emit("ecs strip " + o)
-		case k < 16:
+		case k < 15:
 			emit("ecs readscope " + genUpstream(r, spec, genOpts(r, spec, 100, nil, false)))
-		case k < 18:
+		case k < 17:
 			fam := 4
 			if r.Chance(2, 5) {
 				fam = 6
@@ -493,6 +544,8 @@ func genEcsCase(r *vlib.R, emit func(string)) int {
 				src = fmt.Sprintf("%d:%s/%d", fam, vlib.Hex(maskBytes(base, srcB)), srcB)
 			}
 			emit(fmt.Sprintf("ecs clampscope %d:%s/%d %s", fam, vlib.Hex(maskBytes(base, sb)), sb, src))
+		case k < 19:
+			emit(genWireFacts(r, spec))
 		default:
 			emit(fmt.Sprintf("ecs reqscope %s %s", genClient(r, spec, true), genOpts(r, spec, 85, nil, true)))
 		}
@@ -556,8 +609,11 @@ func genPipeCase(r *vlib.R, emit func(string)) int {
 			copts = genOptsWire(r, spec, s.ecs)
 		}
 		ttl := vlib.Pick(r, []int{300, 301, 600, 3599, 3600, 3601, 86400})
-		emit(fmt.Sprintf("pipe q %s %s %d %s %s %d %s %d", s.client, proto,
-			qid, vlib.B(r.Chance(1, 10)), copts, ttl, genUpstream(r, spec, copts), next()))
+		// what the authority says: an address, or a denial (NODATA / NXDOMAIN with SOA)
+		// whose negative TTL is the SOA's — scoped all the same when it carries a SCOPE
+		kind := vlib.Pick(r, []string{"a", "a", "a", "a", "a", "nd", "nd", "nx"})
+		emit(fmt.Sprintf("pipe q %s %s %d %s %s %d %s %d %s", s.client, proto,
+			qid, vlib.B(r.Chance(1, 10)), copts, ttl, genUpstream(r, spec, copts), next(), kind))
 		count++
 	}
 	var qids []int
@@ -590,7 +646,21 @@ func genPipeCase(r *vlib.R, emit func(string)) int {
 		for i := 0; i < 5+r.Intn(5); i++ {
 			q(vlib.Pick(r, qids))
 		}
-		emit("pipe pfq")
+		if r.Chance(1, 2) {
+			emit("pipe pfq")
+		} else {
+			// let the queued background refreshes run; the authority answers them
+			// as it would the triggering clients (scope and all)
+			s := vlib.Pick(r, sites)
+			emit(fmt.Sprintf("pipe refresh %d %s %d", vlib.Pick(r, []int{300, 600, 3601}),
+				genUpstream(r, spec, genOpts(r, spec, 100, s.ecs, false)), next()))
+			uniq += 64 // answer ids base..base+n-1 belong to this op
+			for i := 0; i < 4+r.Intn(5); i++ {
+				q(vlib.Pick(r, qids))
+			}
+			emit("pipe pfq")
+			count += 6
+		}
 		count += 2
 	}
 	// shared synthesised denials
